@@ -4,6 +4,8 @@ package main
 // Two-run monitor: the same call with two instantiations of the unsafe leaves.
 
 import (
+	"fmt"
+	"reflect"
 	"strings"
 
 	"github.com/cockroachdb/redact"
@@ -363,6 +365,7 @@ func runC02(c *Ctx) {
 		c02check(w, m(), call, route, i)
 		w.Count("random_calls", 1)
 	})
+	c02registeredPointer(c)
 	c.res.Assumptions = []string{"public by the statement: types, container lengths, []byte length, nil-ness, emptiness/zero-ness of each leaf, line-feed positions, map-key order, star operands, everything declared safe",
 		"pairs whose raw outputs differ in the number of line feeds are discarded (counted)"}
 }
@@ -409,4 +412,57 @@ func productLeavesC02() []*D {
 		dSub("RVFieldE", dS("RegStr", rich)),
 	)
 	return out
+}
+
+// c02RegPtrT: only the POINTER type *c02RegPtrT is registered as safe. Values of the struct type itself stay unsafe:
+// what Redact() leaves of them must not depend on their content (a registry that normalises pointer types away
+// would declare the pointee safe behind the caller's back).
+type c02RegPtrT struct {
+	User  string
+	Token string
+	N     int
+}
+
+type c02RegPtrNamed string
+
+func c02registeredPointer(c *Ctx) {
+	redact.RegisterSafeType(reflect.TypeOf((*c02RegPtrT)(nil)))
+	redact.RegisterSafeType(reflect.TypeOf((**c02RegPtrNamed)(nil)))
+	c.Serial(func(w *Worker) {
+		a, b := c02RegPtrT{"alice", "tok-1111", 17}, c02RegPtrT{"bobby", "tok-2222", 42}
+		na, nb := c02RegPtrNamed("alice"), c02RegPtrNamed("bobby")
+		pna, pnb := &na, &nb
+		shapes := []struct {
+			name string
+			mk   func(x c02RegPtrT, n c02RegPtrNamed, pn *c02RegPtrNamed) []interface{}
+		}{
+			{"top level", func(x c02RegPtrT, n c02RegPtrNamed, pn *c02RegPtrNamed) []interface{} { return []interface{}{x} }},
+			{"interface slice", func(x c02RegPtrT, n c02RegPtrNamed, pn *c02RegPtrNamed) []interface{} { return []interface{}{[]interface{}{x, 1}} }},
+			{"typed slice", func(x c02RegPtrT, n c02RegPtrNamed, pn *c02RegPtrNamed) []interface{} { return []interface{}{[]c02RegPtrT{x}} }},
+			{"map value", func(x c02RegPtrT, n c02RegPtrNamed, pn *c02RegPtrNamed) []interface{} { return []interface{}{map[string]interface{}{"k": x}} }},
+			{"struct field", func(x c02RegPtrT, n c02RegPtrNamed, pn *c02RegPtrNamed) []interface{} { return []interface{}{struct{ F interface{} }{x}} }},
+			{"named string, pointee of a registered **T", func(x c02RegPtrT, n c02RegPtrNamed, pn *c02RegPtrNamed) []interface{} { return []interface{}{n} }},
+			{"*named string, pointee of a registered **T", func(x c02RegPtrT, n c02RegPtrNamed, pn *c02RegPtrNamed) []interface{} { return []interface{}{[]interface{}{n}, []c02RegPtrNamed{n}} }},
+		}
+		for _, sh := range shapes {
+			for _, f := range []string{"%v", "%+v", "%s", "%q", "%x", "%#v", "%d", "%10v", "%-12.3v|"} {
+				if len(sh.mk(a, na, pna)) == 2 {
+					f = f + " " + f
+				}
+				ra := redact.Sprintf(f, sh.mk(a, na, pna)...)
+				rb := redact.Sprintf(f, sh.mk(b, nb, pnb)...)
+				w.Eval(2)
+				w.Nontrivial(hashStrs("regptr", sh.name, f))
+				if ra.Redact() != rb.Redact() {
+					w.Violate("C02 registered-pointer", fmt.Sprintf("only pointer types are registered as safe; Sprintf(%q) of values of the pointee type (%s) redacts to %q and %q for two contents (raw %q / %q)", f, sh.name, ra.Redact(), rb.Redact(), ra, rb),
+						map[string]interface{}{"format": f, "shape": sh.name})
+				}
+				for _, leak := range []string{"alice", "tok-1111", "17"} {
+					if strings.Contains(string(ra.Redact()), leak) {
+						w.Violate("C02 registered-pointer", fmt.Sprintf("Sprintf(%q) of an unregistered value (%s) leaves %q visible after Redact(): %q", f, sh.name, leak, ra.Redact()), map[string]interface{}{"format": f, "shape": sh.name})
+					}
+				}
+			}
+		}
+	})
 }
